@@ -55,7 +55,10 @@ def run_worker(modname, group, tier, seed, timeout):
     timed_out = False
     err = ''
     try:
-        p = subprocess.run(cmd, env=_env(), cwd=ROOT, capture_output=True, text=True, timeout=timeout)
+        env = _env()
+        # exploration of one task stops by itself (and reports what it covered) well before the process is killed
+        env['SYMOPT_TASK_BUDGET_S'] = str(round(timeout * (0.5 if len(group) > 1 else 0.6), 1))
+        p = subprocess.run(cmd, env=env, cwd=ROOT, capture_output=True, text=True, timeout=timeout)
         err = p.stderr[-2000:]
     except subprocess.TimeoutExpired:
         timed_out = True
@@ -235,7 +238,7 @@ def main(argv=None):
     case_of = {(hid, ci): case for hid, ci, case in tasks}
 
     def do_group(group):
-        tmo = max((REGISTRY[h]['timeout'] or (300 if tier == 'quick' else 3600)) for h, _ in group)
+        tmo = max((REGISTRY[h]['timeout'] or (300 if tier == 'quick' else 1500)) for h, _ in group)
         out = []
         todo = list(group)
         while todo:
@@ -557,6 +560,9 @@ def main(argv=None):
         json.dump(unconfirmed, open(os.path.join(WORK, 'replays', prop, 'unconfirmed.json'), 'w'), indent=1, default=repr)
     for u in unconfirmed[:10]:
         print(f"   unconfirmed-cex (solver model did not reproduce on the real code): {u['harness']} {u['case']} {u['obligation']} [{u['replay_status']}]")
+    trunc = [f"{r['hid']}[{r['case_idx']}] ({len(r.get('paths', []))} paths)" for r in results if r.get('truncated')]
+    if trunc:
+        print(f'   TRUNCATED exploration (path cap or time budget reached; the unexplored remainder is NOT covered): ' + '; '.join(trunc[:8]))
     if inconclusive:
         print(f'   INCONCLUSIVE ({len(inconclusive)}): ' + '; '.join(inconclusive[:6]) + (' ...' if len(inconclusive) > 6 else ''))
     for k in known_hits:
@@ -594,6 +600,7 @@ def main(argv=None):
                 solver_time_max_s=round(max_solver, 2), functions_encoded=funcs, bounds=bounds, stubs=stubs,
                 per_harness=per_h, known_findings_hit=[k['known'].get('id') for k in known_hits],
                 query_budget_s=qbudget, harness_errors=harness_errors[:20],
+                truncated_explorations=trunc, decided_without_solver=sum(1 for r in results for pt in r.get('paths', []) for o in pt.get('obligations', []) if o.get('how') in ('simplify', 'concrete')),
             ),
             assumptions=[
                 'floats are modelled as exact reals with IEEE special values (inf/nan, division by zero); rounding, overflow and cancellation are outside the claim',
